@@ -123,6 +123,10 @@ type Env struct {
 	HypHook    hyputil.HexAddress
 	HypMailbox hyputil.HexAddress
 	HypTokens  map[string]hyputil.HexAddress // origin denom -> token id
+	// a second mailbox whose default hook is an interchain gas paymaster charging in `stake`, with a collateral token for uother
+	HypIGP      hyputil.HexAddress
+	HypMailbox2 hyputil.HexAddress
+	HypIGPToken hyputil.HexAddress
 
 	// name lookup for traces
 	addrName map[string]string
@@ -359,6 +363,30 @@ func NewWorld(onBoot func(n *Node)) *Node {
 		}
 		n.mustTxs(txs)
 	}
+
+	// Hyperlane with an interchain gas paymaster (IGP): fees in `stake`, charged to the sender of the remote transfer
+	res = n.mustTxs([]*PendingTx{{Signer: ho, Gas: 2_000_000, Msgs: []sdk.Msg{&pdtypes.MsgCreateIgp{Owner: hs, Denom: DenomStake}}}})
+	var igpRes pdtypes.MsgCreateIgpResponse
+	decodeResp(res.TxResults[0], &igpRes)
+	env.HypIGP = igpRes.Id
+	var gcs []*PendingTx
+	for _, dom := range HypDomains {
+		gcs = append(gcs, &PendingTx{Signer: ho, Gas: 2_000_000, Msgs: []sdk.Msg{&pdtypes.MsgSetDestinationGasConfig{Owner: hs, IgpId: env.HypIGP, DestinationGasConfig: &pdtypes.DestinationGasConfig{RemoteDomain: dom, GasOracle: &pdtypes.GasOracle{TokenExchangeRate: sdkmath.NewInt(10_000_000_000), GasPrice: sdkmath.NewInt(1)}, GasOverhead: sdkmath.NewInt(1000)}}}})
+	}
+	n.mustTxs(gcs)
+	res = n.mustTxs([]*PendingTx{{Signer: ho, Gas: 2_000_000, Msgs: []sdk.Msg{&hypcoretypes.MsgCreateMailbox{Owner: hs, LocalDomain: HypLocalDom, DefaultIsm: env.HypISM, DefaultHook: &env.HypIGP, RequiredHook: &env.HypHook}}}})
+	var mb2 hypcoretypes.MsgCreateMailboxResponse
+	decodeResp(res.TxResults[0], &mb2)
+	env.HypMailbox2 = mb2.Id
+	res = n.mustTxs([]*PendingTx{{Signer: ho, Gas: 2_000_000, Msgs: []sdk.Msg{&warptypes.MsgCreateCollateralToken{Owner: hs, OriginMailbox: env.HypMailbox2, OriginDenom: DenomOther}}}})
+	var igpTok warptypes.MsgCreateCollateralTokenResponse
+	decodeResp(res.TxResults[0], &igpTok)
+	env.HypIGPToken = igpTok.Id
+	var rts []*PendingTx
+	for _, dom := range HypDomains {
+		rts = append(rts, &PendingTx{Signer: ho, Gas: 2_000_000, Msgs: []sdk.Msg{&warptypes.MsgEnrollRemoteRouter{Owner: hs, TokenId: igpTok.Id, RemoteRouter: &warptypes.RemoteRouter{ReceiverDomain: dom, ReceiverContract: "0x" + fmt.Sprintf("%064x", dom), Gas: sdkmath.NewInt(50000)}}}})
+	}
+	n.mustTxs(rts)
 
 	// Seed vouchers: noble0 sends each denom over each pair to each remote user.
 	type seedPkt struct {
